@@ -6,7 +6,7 @@ from common import hx, unhx, REPO, GOENV
 
 class C13(Prop):
     pid = "C13"
-    fields = {"opcodes": ["na", "nb", "valid", "hunks", "~all", "~groups"], "diff": ["empty", "valid", "report", "~own"]}
+    fields = {"opcodes": ["na", "nb", "valid", "hunks", "~all", "~groups"], "diff": ["empty", "valid", "readable", "~report", "~own"]}
     rule = ("pairs of texts: random edits (insert/delete/replace/block move) of 0-400-line texts over alphabets of "
             "1-200 distinct lines (so hunk ranges appear above 10 lines and the popular-line purge engages at >= 200), "
             "binary and invalid-UTF-8 line contents, with/without final newline, colours off (full report compared) "
